@@ -209,11 +209,54 @@ def chk_twogrid(c):
         assert not np.shares_memory(u, u0) or True
 
 
-CHECKS = {'gs': chk_gs, 'mg': chk_mg, 'twogrid': chk_twogrid}
+def chk_iterative(c):
+    """iterative_solve: a finite count k means the k-th iterate (and no earlier one) reduced the residual on the active dofs below tol relative
+    to the residual of the STARTING vector; inf means maxiter iterates did not"""
+    import io, contextlib
+    from pyiga import solvers
+    rng = np.random.RandomState(c['seed'])
+    n = c['n']
+    A = _matrix('spd', n, rng)
+    b = rng.randint(-5, 6, size=n).astype(float)
+    xs = np.linalg.solve(A, b)
+    x0 = {'none': None, 'zero': np.zeros(n), 'near': xs + 1e-2 * (rng.rand(n) - 0.5), 'far': xs + 50.0 * (rng.rand(n) + 1.0)}[c['x0']]
+    active = None if not c['active'] else np.sort(rng.permutation(n)[:max(2, n - 2)])
+    import scipy.sparse
+    M = scipy.sparse.csr_matrix(A)
+
+    def step(x):
+        y = np.array(x, dtype=float)
+        solvers.gauss_seidel(M, y, b, iterations=1, sweep='symmetric')
+        return y
+    sel = slice(None) if active is None else active
+    start = np.zeros(n) if x0 is None else x0
+    r0 = np.linalg.norm((b - A @ start)[sel])
+    tol, maxiter = c['tol'], c['maxiter']
+    with contextlib.redirect_stdout(io.StringIO()):
+        x, k = solvers.iterative_solve(step, M, b, x0=None if x0 is None else x0.copy(), active_dofs=active, tol=tol, maxiter=maxiter)
+    # replay the iteration independently
+    y = start.copy()
+    hist = []
+    for j in range(maxiter):
+        y = step(y)
+        hist.append(np.linalg.norm((b - A @ y)[sel]) / r0)
+        if hist[-1] < tol:
+            break
+    if hist[-1] < tol:
+        assert k == len(hist), 'reported %r iterations, the reduction %g relative to the starting residual is first reached after %d' % (k, tol, len(hist))
+        assert np.allclose(x, y, rtol=1e-12, atol=1e-12)
+    else:
+        assert k == np.inf, 'reported convergence after %r iterations although the residual reduction is only %g (requested %g)' % (k, hist[-1], tol)
+
+
+CHECKS = {'iterative': chk_iterative, 'gs': chk_gs, 'mg': chk_mg, 'twogrid': chk_twogrid}
 
 
 def generate(tier, rng):
     quick = tier == 'quick'
+    for k in range(24 if quick else 200):
+        yield 'iterative', {'seed': k, 'n': 4 + k % 5, 'x0': ['none', 'zero', 'near', 'far'][k % 4], 'active': bool(k % 3 == 0),
+                            'tol': [1e-2, 1e-4, 1e-6][k % 3], 'maxiter': [200, 3][k % 7 == 0]}
     nm = 60 if quick else 400
     fmts = ['dense', 'csr', 'csc', 'coo', 'csr_unsorted']
     for k in range(nm):
